@@ -29,6 +29,7 @@ def build_ledger(env, keys, rng, shape):
         outs.append((rest, keys.pks[5]))          # key 5 is NOT in the wallet
     t = chaingen.signed_tx(keys, n.utxo, [ref[0]], outs)
     n = tg.extend(n, txs=[t], fees=0, miner=keys.pks[5])
+    build_ledger.tg = tg
     return tg.nodes, chaingen.impl_state_from(tg.nodes)
 
 
@@ -62,7 +63,7 @@ def run(tier, seed):
                'foreign or own key, failed attempts followed by affordable ones; every returned transaction is validated by '
                "the node's own transaction validation and by the independent rules, amounts and change recomputed, the "
                "wallet's used-output record compared before/after; whole sequences compared with the extracted selection "
-               'model; one ledger with 2,100 one-unit outputs (known finding); non-trivial = distinct (ledger, request)')
+               'model; histories of five spends across head changes (an earlier spend confirmed, then un-confirmed by a fork switch, then an older state again); one ledger with 2,100 one-unit outputs (known finding); non-trivial = distinct (ledger, request)')
     ck.trusted += ['extraction + OCaml driver', 'chain generator', 'real ecdsa signing in sign_transaction']
     ck.assumptions += ['positive amount, non-negative fee; balances taken at the head; one wallet']
     r = ck.build(extract=True)
@@ -173,6 +174,59 @@ def run(tier, seed):
                 model_reqs.append([amount, fee])
             reqs.append(('spend_run', [], [used0, hold, model_reqs]))
             wants.append((model_wants, {'trial': trial, 'shape': shape}))
+    # ---- spends across head changes: confirmation of an earlier spend, then a fork switch that un-confirms it
+    for trial in range(4 if tier == 'quick' else 20):
+        with chaingen.Env(period=50) as env:
+            shape = [(rng.randrange(2), rng.choice([5, 10, 100])) for _ in range(rng.choice([4, 6, 8]))]
+            nodes, cs3 = build_ledger(env, keys, rng, shape)
+            tg = build_ledger.tg
+            b3 = nodes[-1]
+            wkeys = [keys.pks[0], keys.pks[1]]
+            wallet = Wallet({pk: keys.by_pk[pk].to_string() for pk in wkeys}, [], {pk: 'a' for pk in wkeys})
+            used_all = set()
+            history = []
+            rp = {'reorg_trial': trial, 'shape': shape}
+
+            def do_spend(cs, utxo, label, amount):
+                rpp = dict(rp, history=list(history), at=label)
+                remaining = sum(v for ref, (v, pk) in utxo.items() if pk in wkeys and ref not in used_all)
+                try:
+                    tx = create_spend_transaction(wallet, cs, amount, 0, SECP256k1PublicKey(keys.pks[5]), SECP256k1PublicKey(wkeys[1]))
+                except Exception as e:
+                    if remaining >= amount and 'Insufficient' in str(e):
+                        ck.violation('affordable-spend-refused-across-head-change', 'insufficient funds reported at %s although '
+                                     'unused outputs worth %d cover %d' % (label, remaining, amount), rpp)
+                    elif 'Insufficient' not in str(e):
+                        ck.violation('spend-builder-raises', 'create_spend_transaction raised %r at %s' % (e, label), rpp)
+                    history.append((label, 'refused'))
+                    return None
+                refs = [(h, i) for h, i, _ in spec.TxView(tx).inputs]
+                ck.case(('reorg', trial, label), kind='across-head-change/' + label.split(':')[0])
+                if any(x in used_all for x in refs):
+                    ck.violation('input-reused-across-head-change', 'at %s the wallet spends an output that one of its earlier '
+                                 'spends already used (history: %s)' % (label, [h[0] for h in history]), rpp)
+                if any(x not in utxo or utxo[x][1] not in wkeys for x in refs):
+                    ck.violation('inputs-not-owned-distinct', 'inputs are not unspent outputs of wallet keys at %s' % label, rpp)
+                used_all.update(refs)
+                history.append((label, len(refs)))
+                return tx
+            t1 = do_spend(cs3, b3.utxo, 'spend1:head=b3', 3)
+            if t1 is None:
+                continue
+            b4 = tg.extend(b3, txs=[t1], fees=0, dt=60)                 # confirms spend 1
+            cs4 = chaingen.impl_state_from(tg.nodes)
+            if bytes(cs4.current_chain_hash) != b4.id:
+                continue
+            do_spend(cs4, b4.utxo, 'spend2:head=b4(confirms spend1)', 3)
+            b4x = tg.extend(b3, txs=[], fees=0, dt=61)                   # the competing branch does not contain spend 1
+            b5x = tg.extend(b4x, txs=[], fees=0, dt=60)
+            cs5 = chaingen.impl_state_from(tg.nodes)
+            if bytes(cs5.current_chain_hash) != b5x.id:
+                ck.count('reorg-scenario-skipped(fork choice)')
+                continue
+            do_spend(cs5, b5x.utxo, 'spend3:head=b5x(fork switch, spend1 unconfirmed again)', 3)
+            do_spend(cs5, b5x.utxo, 'spend4:head=b5x', 4)
+            do_spend(cs3, b3.utxo, 'spend5:back at head=b3', 2)
     # ---- the known finding: more inputs than fit in one transaction
     with chaingen.Env(period=50) as env:
         tg = chaingen.TreeGen(env, keys, rng)
